@@ -39,7 +39,9 @@ class BoolOperation(object):
             if self.done:
                 return
 
-            del self.fs[f]
+            # The same future may have been passed more than once: its callback
+            # then fires once per occurrence but it is a single key here.
+            self.fs.pop(f, None)
 
             (set_result, set_exception, cancel_futures) = self.get_state_update(f)
 
